@@ -124,9 +124,16 @@ func genC18(ctx *Ctx) {
 		ex := sx.L(sx.L(sx.S("A"), sx.I(5)))
 		ctx.Input(sx.L(sx.I(2), exprInput(s, sx.L(), nil), ex, c18Uppers(s, sx.AsList(ex))), true)
 	}
+	for _, tpl := range []string{"{{a}}{{#b}}{{c}}{{/b}}", "", "{{d}}", " ", "{{e}}", "text only", "{{f}}", "\n"} {
+		ctx.Count("template-special")
+		ctx.Input(sx.L(sx.I(3), mInput(tpl, nil, sx.L()), sx.L()), true)
+	}
 	for i := 0; i < ctx.N/2; i++ {
 		ast := genMNodes(ctx.Rnd, 1+ctx.Rnd.Intn(3))
 		tpl := mPrint(ctx.Rnd, ast)
+		if ctx.Rnd.Intn(12) == 0 {
+			ast, tpl = nil, []string{"", " ", "just text"}[ctx.Rnd.Intn(3)]
+		}
 		ctx.Count("template")
 		var existing sx.List
 		var exVars [][2]string
@@ -432,19 +439,47 @@ func runC18Expression(l sx.List) (sx.SX, string) {
 	return obs, fail
 }
 
+// one parser object that lives through the whole run: the names it reports are those of the current template only
+var c18WarmM = mparsers.NewMustacheParser()
+
 func runC18Template(l sx.List) (sx.SX, string) {
 	t := sx.AsList(l[1])
 	text := sx.AsString(t[0])
 	p := mparsers.NewMustacheParser()
-	if err := p.SetTemplate(text); err != nil {
+	p.SetTemplate("{{zz9}}{{#yy8}}{{ww7}}{{/yy8}}") // the parser is reused: names of an earlier template must not survive
+	err := p.SetTemplate(text)
+	werr := c18WarmM.SetTemplate(text)
+	warmNames := strings.Join(c18WarmM.VariableNames(), ",")
+	c18WarmM.Clear()
+	clearedNames := strings.Join(c18WarmM.VariableNames(), ",")
+	if err != nil {
 		c, ok := mErrCodes[codeOf(err)]
 		if !ok {
 			c = 99
 		}
-		return sx.L(sx.I(1), sx.I(c)), ""
+		f := ""
+		if werr == nil {
+			f = "a parser object used before accepts what a new parser rejects"
+		}
+		return sx.L(sx.I(1), sx.I(c)), f
 	}
 	tpl := mustache.NewMustacheTemplate()
 	fail := ""
+	if werr != nil {
+		fail = "a parser object used before rejects what a new parser accepts"
+	}
+	{
+		fp := mparsers.NewMustacheParser()
+		fp.SetTemplate(text)
+		if fresh := strings.Join(fp.VariableNames(), ","); fail == "" && fresh != warmNames {
+			fail = fmt.Sprintf("a parser object used before reports the variables [%s], a new parser [%s]", warmNames, fresh)
+		} else if fresh2 := strings.Join(p.VariableNames(), ","); fail == "" && fresh2 != fresh {
+			fail = fmt.Sprintf("a parser that parsed another template before reports the variables [%s], a new parser [%s]", fresh2, fresh)
+		}
+		if fail == "" && clearedNames != "" {
+			fail = fmt.Sprintf("after Clear() the parser still reports the variables [%s]", clearedNames)
+		}
+	}
 	existing := map[string]string{}
 	for _, k := range sx.AsList(l[2]) {
 		existing[sx.AsString(k)] = ""
